@@ -33,6 +33,7 @@ RULE = ("(det) random valid calls with a fixed seed in {0,5,2^31-1}, with and wi
         "graphs and degree-6 PUSOs run under the H2 hook. Non-trivial = model with >= 2 variables and >= 2 terms; "
         "distinct = digest of the configuration"
         ' Also: schedules [inf]*a + [0]*k (a up to 1000) with an ignored anneal_duration, labelled models with user mappings (energy clauses), models scaled by 2^-60, seeds with bit 31 set (refused or reproducible across a one-second pause), a ferromagnetic-pair ratchet run for 1000-20000 sweeps at dE/T in {9.7, 11, 13} against the exact chain, initial states spelled as a list or tuple indexed by label, zeros spelled 0, 0.0 or -0.0, labelled objects annealed once before the user mapping is set, exactness verdict (H2 maximal deviation == 0) on exactly summable workloads.')
+RULE += " Rounds 9-10: labelled models that are one of several siblings derived from a common ancestor (copy / constructor / sum / deepcopy), each grown by a variable of its own; about every sixth model is grown in place out of a named variable object."
 TIERS = {"quick": {"shards": 8, "cases": 200}, "thorough": {"shards": 16, "cases": 4000}}
 FLOOR_BASE = {"quick": 160, "thorough": 4000}    # case counts the floors below were calibrated for; the launcher scales them
 FLOOR_FIXED = {"hook:big-workloads"}
